@@ -159,7 +159,8 @@ theorem qubitCheck_lit {src : Val} {i k : Int} (h : qubitCheck src (.int i) = .o
   have hnone : (Val.int i == Val.none || src == Val.none) = false := by
     cases src <;> simp [isRegister] at hreg <;> rfl
   unfold qubitCheck at h
-  simp only [hnone, hav, Bool.false_eq_true, if_false, bind, Except.bind, regSize_lit hk,
+  simp only [indexIntegralCheck, indexRangeCheck, hnone, hav, Bool.false_eq_true, if_false, bind, Except.bind,
+    regSize_lit hk,
     pyIntOfSize, pure, Except.pure, pyLt_int, pyLe_int] at h
   by_cases hb : (decide (i < 0) || !decide (i < k)) = true
   · simp [hb, throw_eq] at h
@@ -188,6 +189,8 @@ theorem sliceCheck_lit {src : Val} {ia ib is k : Int} (h : sliceCheck src (.int 
   have hav : (isAV (.int ia) || isAV (.int ib) || isAV (.int is) || isAV src) = false := by
     cases src <;> simp [isRegister] at hreg <;> rfl
   unfold sliceCheck at h
+  simp only [hav, Bool.false_eq_true, if_false] at h
+  unfold sliceKnownCheck at h
   by_cases hs : is = 0
   · subst hs; simp [hav, isIntLit, pyEq0, Val.toNum?, Num.veq, throw_eq, bind, Except.bind] at h
   have hz : pyEq0 (.int is) = false := by simp [pyEq0, Val.toNum?, Num.veq, hs]
@@ -891,22 +894,13 @@ theorem stepTail_ok {cfg : Config} {mode : KeyMode} {inject : Option (List (Stri
     exact ⟨ha.ctx, hm, ha.regs, StmtsOK_append ha.stmts ho, ha.macros⟩
   | case => simp [stepTail, throw_eq] at h
   | usepulses n =>
-    simp only [stepTail] at h
-    by_cases hau : cfg.autoload = true
-    · simp only [hau, if_true] at h
-      cases hi : cfg.imports n with
-      | none => simp [hi, throw_eq] at h
-      | some gs =>
-        simp [hi, pure, Except.pure] at h
-        rw [← h]
-        refine ⟨ha.ctx, ?_, ha.regs, ha.stmts, ha.macros⟩
-        show MemoStmts (if mode = KeyMode.noReset then st.memo else [])
-        split
-        · exact hm
-        · intro k s0 hk; cases hk
-    · simp only [hau] at h
-      cases h
-      exact ⟨ha.ctx, hm, ha.regs, ha.stmts, ha.macros⟩
+    rcases stepTail_usepulses_ok h with ⟨_, rfl⟩ | ⟨_, _, gs, _, rfl⟩
+    · exact ⟨ha.ctx, hm, ha.regs, ha.stmts, ha.macros⟩
+    · refine ⟨ha.ctx, ?_, ha.regs, ha.stmts, ha.macros⟩
+      show MemoStmts (if mode = KeyMode.noReset then st.memo else [])
+      split
+      · exact hm
+      · intro k s0 hk; cases hk
 
 theorem circuitLoop_ok {cfg : Config} {mode : KeyMode} {inject : Option (List (String × GateDef))} {fuel : Nat} :
     ∀ (cs : List BSx) (acc a1 : Acc), AccOK acc → BSx.noValsList cs = true →
